@@ -106,6 +106,42 @@ theorem resolve_setMv_loc (mv : Loc → TxId → Option Entry) (l l' : Loc) (i j
   intro k _
   exact setMv_ne_loc mv l' l j k e h
 
+/-! ### cval: the committed-state cache -/
+
+/-- `cval … c` only looks at the results of transactions below `c`. -/
+theorem cval_frozen {P : Params} {s s' : State} {c : Nat} {l : Loc}
+    (h : ∀ j, j < c → s'.result j = s.result j) : cval P s' c l = cval P s c l := by
+  induction c with
+  | zero => rfl
+  | succ c ih =>
+    have ih' := ih (fun j hj => h j (by omega))
+    simp only [cval]
+    rw [h c (Nat.lt_succ_self c), ih']
+
+theorem cval_congr {P : Params} {s s' : State} (h : s'.result = s.result) (c : Nat) (l : Loc) :
+    cval P s' c l = cval P s c l :=
+  cval_frozen (fun j _ => by rw [h])
+
+/-- If no successful result below `c` writes `l`, the committed cache still holds the block-start
+    value. -/
+theorem cval_base {P : Params} {s : State} {c : Nat} {l : Loc}
+    (h : ∀ j, j < c → ∀ r, s.result j = some r → ∀ w o, r.out = .ok w o → lookup w l = none) :
+    cval P s c l = P.base l := by
+  induction c with
+  | zero => rfl
+  | succ c ih =>
+    have ih' := ih (fun j hj => h j (by omega))
+    have hc := h c (Nat.lt_succ_self c)
+    simp only [cval]
+    split
+    · rename_i r hr
+      split
+      · rename_i w o ho
+        rw [hc r hr w o ho]
+        exact ih'
+      · exact ih'
+    · exact ih'
+
 /-! ### lookup / writeLocs -/
 
 theorem mem_writeLocs_iff_mem {w : List (Loc × Val)} {l : Loc} :
